@@ -477,6 +477,19 @@ def macros(n, parents=()):
     return []
 
 
+def macro_chain(n):
+    """macro chain spelled at expression n, looking through cast wrappers (the chain is
+    recorded on the outermost node that starts in the macro)"""
+    while n is not None:
+        if n.get("m"):
+            return n["m"]
+        if n.get("k") == "cast":
+            n = n["e"]
+        else:
+            break
+    return []
+
+
 def refs(n):
     """all variable references (names) in tree"""
     for x, _ in walk(n):
